@@ -12,6 +12,7 @@ import (
 	"flag"
 	"fmt"
 	"math"
+	"os"
 	"sync/atomic"
 	"time"
 
@@ -679,6 +680,23 @@ func roundsInput(x *input, r result) []int64 {
 	return append(out, ws...)
 }
 
+// statistics for the notes: largest deviation / number of queue records that differ between
+// two map orders of the same case (printed to stderr at the end with C12_STATS=1)
+var orderDev float64
+var orderDiffs int
+
+func maxDev(a, b *api.Resource, D int) float64 {
+	m := 0.0
+	for j := 0; j < D; j++ {
+		va, _ := cellOf(a, j)
+		vb, _ := cellOf(b, j)
+		if d := math.Abs(va - vb); d > m {
+			m = d
+		}
+	}
+	return m
+}
+
 func lawInput(x *input, r result, capacityMode bool) []int64 {
 	out := []int64{int64(x.D)}
 	out = append(out, encCellsScaled(x.total)...)
@@ -745,8 +763,37 @@ func laws(sel int, in, got []int64, law func(lsel int, lin []int64, sig string))
 		law(103, li, "")
 		law(105, li, "")
 		law(107, roundsInput(x, r), "")
-		if i == 0 {
-			law(104, li, "")
+		law(104, li, "")
+		if i > 0 {
+			// runs 0 and i differ only in Go's map iteration order
+			ab := []int64{int64(x.D)}
+			n := 0
+			for _, q := range r.qs {
+				if q.present {
+					n++
+				}
+			}
+			ab = append(ab, int64(n))
+			for k, q := range r.qs {
+				if !q.present {
+					continue
+				}
+				q0 := last.runs[0].qs[k]
+				ab = append(ab, encScaled(q0.des, x.D)...)
+				ab = append(ab, encScaled(q0.alloc, x.D)...)
+				ab = append(ab, vh.B(q0.over))
+				ab = append(ab, encScaled(q.des, x.D)...)
+				ab = append(ab, vh.B(q.over))
+				if d := maxDev(q0.des, q.des, x.D); d > orderDev {
+					orderDev = d
+				}
+				if d := maxDev(q0.des, q.des, x.D); d != 0 {
+					orderDiffs++
+				}
+			}
+			law(108, ab, "")
+			// the literal clause (no tolerance): known finding, see known-findings.json
+			law(109, ab, "C12/map-order-dependent-deserved")
 		}
 	}
 }
@@ -1113,4 +1160,7 @@ func generate(rng *vh.Rng, n int, emit func(id string, sel int, in []int64, kind
 
 func main() {
 	vh.Harness{Run: run, Laws: laws, Gen: generate}.Main()
+	if os.Getenv("C12_STATS") != "" {
+		fmt.Fprintf(os.Stderr, "order statistics: %d queue records differ between two map orders, largest deviation %g\n", orderDiffs, orderDev)
+	}
 }
